@@ -21,7 +21,7 @@ demos = []
 for f in sorted(glob.glob(seed + "/demo/**/*", recursive=True)):
     if os.path.isdir(f): continue
     head = open(f, errors="replace").read(600)
-    m = re.search(r"[Pp]lace\w*\s+(?:it\s+)?(?:at|in|into|under|as)\s+`?([\w./-]+)`?", head)
+    m = re.search(r"[Pp]lace\w*\s+(?:it\s+)?(?:at|in|into|under|as):?\s+`?([\w./-]+)`?", head)
     dest = m.group(1).rstrip(".,;:") if m else None
     if dest and not dest.endswith(".go"):
         dest = os.path.join(dest, os.path.basename(f))
@@ -37,7 +37,7 @@ def run_demo():
     rc_all = 0
     for f, d, _ in demos:
         if not d: continue
-        pkg = "./" + os.path.dirname(d)
+        pkg = "./" + os.path.dirname(d) if os.path.dirname(d) else "."
         if d.endswith("_test.go"):
             m = re.search(r"-run\s+'?\"?([\w|^$()]+)", open(f, errors="replace").read(600))
             runpat = m.group(1) if m else "Seed"
